@@ -93,6 +93,8 @@ func writeEvidence(e *Engine, prop, tier string, seed int, wall float64, nObl, n
 			"functions_under_contract": fns,
 			"per_obligation":           perObl,
 			"known_findings":           nKnown,
+			"carried_over_bounded":     carriedOver,
+			"carried_over_rule":        "obligations whose proof no longer fits a changed function that the bounded symbolic comparison shows equivalent to its verified predecessor (baseline_src); listed in per_obligation with status carried-over; never counted in obligations/discharged",
 			"not_decided":              notDecided,
 			"solver_ms_total":          solverMs,
 			"contract_files":           e.cs.files,
@@ -108,6 +110,9 @@ func writeEvidence(e *Engine, prop, tier string, seed int, wall float64, nObl, n
 }
 
 var notDecidedByProp = map[string][]string{}
+
+// carriedOver: number of obligations carried over by equivalence in this run (see main.go).
+var carriedOver int
 
 func writeReplay(e *Engine, prop string, g *groupResult) replayInfo {
 	dir := filepath.Join(e.verif, "replays", prop)
